@@ -365,7 +365,390 @@ Proof.
   repeat split; apply (rel_err_lin 15 16 _ _ E15); assumption.
 Qed.
 
+(* ---------------------------------------------------------------------------------------------------------------- *)
+(* Part 3: MAIN B, the accumulation (recursive summation) *)
+
+Definition Rsum (l : list R) : R := fold_right Rplus 0 l.
+
+Lemma Rsum_cons : forall a l, Rsum (a :: l) = a + Rsum l.
+Proof. reflexivity. Qed.
+
+Lemma Rsum_abs_nonneg : forall (A : Type) (g : A -> R) l, 0 <= Rsum (map (fun s => Rabs (g s)) l).
+Proof.
+  intros A g l; induction l as [|a l IH]; cbn [map]; [unfold Rsum; simpl; lra|].
+  rewrite Rsum_cons. pose proof (Rabs_pos (g a)). lra.
+Qed.
+
+(* x approximates A, where A is a sum of terms whose absolute values sum to B, with at most m roundings per term *)
+Definition P (m : nat) (x A B : R) : Prop := Rabs (x - A) <= E m * B /\ Rabs A <= B.
+
+Lemma P_zero : forall m, P m 0 0 0.
+Proof. intros m; split; rewrite ?Rminus_0_r, Rabs_R0; lra. Qed.
+
+Lemma P_of_rel : forall k m t a, (k <= m)%nat -> rel k t a -> P m t a (Rabs a).
+Proof.
+  intros k m t a Hk H; split; [|lra].
+  apply Rle_trans with (1 := rel_err k t a H).
+  apply Rmult_le_compat_r; [apply Rabs_pos | apply E_mono, Hk].
+Qed.
+
+Lemma P_add : forall m x A B x' A' B', P m x A B -> P m x' A' B' -> P m (x + x') (A + A') (B + B').
+Proof.
+  intros m x A B x' A' B' [H1 H2] [H1' H2']; split.
+  - replace (x + x' - (A + A')) with ((x - A) + (x' - A')) by ring.
+    apply Rle_trans with (1 := Rabs_triang _ _). rewrite Rmult_plus_distr_l. lra.
+  - apply Rle_trans with (1 := Rabs_triang _ _). lra.
+Qed.
+
+Lemma E_step : forall m, (1 + E m) * (1 + u) <= 1 + E (S m).
+Proof.
+  intros m. unfold E. cbn [pow]. rewrite Rinv_mult.
+  replace (1 + (/ q ^ m - 1)) with (/ q ^ m) by ring.
+  replace (1 + (/ q * / q ^ m - 1)) with (/ q * / q ^ m) by ring.
+  pose proof (iqk_pos m) as Hi.
+  assert (Hq : 1 + u <= / q).
+  { apply Rmult_le_reg_r with q; [lra|]. rewrite Rinv_l by lra. nra. }
+  nra.
+Qed.
+
+Lemma P_round : forall m x A B e, P m x A B -> Rabs e <= u -> P (S m) (x * (1 + e)) A B.
+Proof.
+  intros m x A B e [H1 H2] He; split; [|exact H2].
+  assert (HB : 0 <= B) by (pose proof (Rabs_pos A); lra).
+  replace (x * (1 + e) - A) with ((x - A) * (1 + e) + A * e) by ring.
+  apply Rle_trans with (1 := Rabs_triang _ _). rewrite !Rabs_mult.
+  assert (He1 : Rabs (1 + e) <= 1 + u).
+  { apply Rabs_le_both in He. apply Rabs_le. lra. }
+  pose proof (E_nonneg m) as HE.
+  assert (T1 : Rabs (x - A) * Rabs (1 + e) <= (E m * B) * (1 + u)).
+  { apply Rmult_le_compat; try apply Rabs_pos; assumption. }
+  assert (T2 : Rabs A * Rabs e <= B * u).
+  { apply Rmult_le_compat; try apply Rabs_pos; assumption. }
+  pose proof (Rmult_le_compat_l B _ _ HB (E_step m)) as T3.
+  nra.
+Qed.
+
+Section Fold.
+Variables (term exact : partR -> R) (k : nat).
+
+Definition addterm (x : R) (s : partR) : R := o_add ar x (term s).
+
+Lemma P_addterm : forall m acc A B s, (k <= m)%nat -> rel k (term s) (exact s) -> P m acc A B ->
+  P (S m) (addterm acc s) (A + exact s) (B + Rabs (exact s)).
+Proof.
+  intros m acc A B s Hk Hs HP. unfold addterm.
+  destruct Hm as (Ha & _). destruct (Ha acc (term s)) as [e [He ->]].
+  apply P_round; [|exact He]. apply P_add; [exact HP | apply (P_of_rel k); assumption].
+Qed.
+
+Lemma fold_P : forall l, Forall (fun s => rel k (term s) (exact s)) l ->
+  forall m acc A B, (k <= m)%nat -> P m acc A B ->
+  P (m + length l) (fold_left addterm l acc) (A + Rsum (map exact l))
+    (B + Rsum (map (fun s => Rabs (exact s)) l)).
+Proof.
+  intros l HF; induction HF as [|s l Hs HF IH]; intros m acc A B Hk HP.
+  - cbn [fold_left map length]. unfold Rsum; cbn [fold_right]. rewrite Nat.add_0_r, !Rplus_0_r. exact HP.
+  - cbn [fold_left map length]. rewrite !Rsum_cons, <- !Rplus_assoc, Nat.add_succ_r.
+    apply (IH (S m)); [lia|]. apply P_addterm; assumption.
+Qed.
+
+(* the accumulation of remote_one for one component: start from zero, add the terms in order, add to zero *)
+Lemma accum_err : forall l, Forall (fun s => rel k (term s) (exact s)) l ->
+  Rabs (o_add ar (o_zero ar) (fold_left addterm l (o_zero ar)) - Rsum (map exact l))
+  <= E (length l + S k) * Rsum (map (fun s => Rabs (exact s)) l).
+Proof.
+  intros l HF. pose proof Hm as (Ha & _ & _ & _ & _ & Hz & _). rewrite Hz.
+  pose proof (fold_P l HF k 0 0 0 (le_n k) (P_zero k)) as HP.
+  destruct (Ha 0 (fold_left addterm l 0)) as [e [He ->]].
+  pose proof (P_round _ _ _ _ e (P_add _ _ _ _ _ _ _ (P_zero (k + length l)) HP) He) as [H _].
+  rewrite !Rplus_0_l in H.
+  replace (length l + S k)%nat with (S (k + length l)) by lia. rewrite Rplus_0_l. exact H.
+Qed.
+End Fold.
+
+Lemma fold_left_proj : forall (A B C : Type) (F : A -> B -> A) (g : C -> B -> C) (pr : A -> C),
+  (forall a b, pr (F a b) = g (pr a) b) -> forall l a, pr (fold_left F l a) = fold_left g l (pr a).
+Proof.
+  intros A B C F g pr H l; induction l as [|b l IH]; intros a; cbn [fold_left]; [reflexivity|].
+  rewrite IH, H; reflexivity.
+Qed.
+
+Definition term_x (t s : partR) : R := let '(dx, _, _, _) := pair R ar s t in dx.
+Definition term_y (t s : partR) : R := let '(_, dy, _, _) := pair R ar s t in dy.
+Definition term_z (t s : partR) : R := let '(_, _, dz, _) := pair R ar s t in dz.
+Definition term_p (t s : partR) : R := let '(_, _, _, inv) := pair R ar s t in o_mul ar inv (p_v _ s).
+
+Lemma remote_one_proj : forall srcs t,
+  let r := remote_one R ar srcs t (rhs0 R ar) in
+  f_x _ r = o_add ar (o_zero ar) (fold_left (addterm (term_x t)) srcs (o_zero ar)) /\
+  f_y _ r = o_add ar (o_zero ar) (fold_left (addterm (term_y t)) srcs (o_zero ar)) /\
+  f_z _ r = o_add ar (o_zero ar) (fold_left (addterm (term_z t)) srcs (o_zero ar)) /\
+  f_p _ r = o_add ar (o_zero ar) (fold_left (addterm (term_p t)) srcs (o_zero ar)).
+Proof.
+  intros srcs t. unfold remote_one. cbn [f_x f_y f_z f_p rhs0].
+  repeat split; f_equal.
+  - apply (fold_left_proj _ _ _ _ (addterm (term_x t)) (f_x R)).
+    intros a s; unfold addterm, term_x; destruct (pair R ar s t) as [[[? ?] ?] ?]; reflexivity.
+  - apply (fold_left_proj _ _ _ _ (addterm (term_y t)) (f_y R)).
+    intros a s; unfold addterm, term_y; destruct (pair R ar s t) as [[[? ?] ?] ?]; reflexivity.
+  - apply (fold_left_proj _ _ _ _ (addterm (term_z t)) (f_z R)).
+    intros a s; unfold addterm, term_z; destruct (pair R ar s t) as [[[? ?] ?] ?]; reflexivity.
+  - apply (fold_left_proj _ _ _ _ (addterm (term_p t)) (f_p R)).
+    intros a s; unfold addterm, term_p; destruct (pair R ar s t) as [[[? ?] ?] ?]; reflexivity.
+Qed.
+
+Lemma term_rel : forall s t, apart s t ->
+  rel 15 (term_x t s) (f_x _ (contrib s t)) /\ rel 15 (term_y t s) (f_y _ (contrib s t)) /\
+  rel 15 (term_z t s) (f_z _ (contrib s t)) /\ rel 5 (term_p t s) (f_p _ (contrib s t)).
+Proof.
+  intros s t Hap. pose proof (pair_rel s t Hap) as H. unfold term_x, term_y, term_z, term_p.
+  destruct (pair R ar s t) as [[[fx fy] fz] inv]. destruct H as (Hx & Hy & Hz & Hi).
+  repeat split; try assumption.
+  cbn [contrib f_p]. unfold Rdiv. rewrite (Rmult_comm (p_v _ s)).
+  apply (m_mul 4 0); [exact Hi | apply rel_refl].
+Qed.
+
+Lemma Forall_term : forall srcs t (k : nat) (term exact : partR -> partR -> R),
+  (forall s, apart s t -> rel k (term t s) (exact s t)) ->
+  Forall (fun s => apart s t) srcs -> Forall (fun s => rel k (term t s) (exact s t)) srcs.
+Proof. intros srcs t k term exact H HF. eapply Forall_impl; [|exact HF]. exact H. Qed.
+
+(* MAIN B, exact form of the bound: E K = 1/(1-u)^K - 1 <= K u / (1 - K u) *)
+Theorem remote_potential_error_E : forall srcs t, Forall (fun s => apart s t) srcs ->
+  Rabs (f_p _ (remote_one R ar srcs t (rhs0 R ar)) - Rsum (map (fun s => f_p _ (contrib s t)) srcs))
+  <= E (length srcs + 6) * Rsum (map (fun s => Rabs (f_p _ (contrib s t))) srcs).
+Proof.
+  intros srcs t HF. destruct (remote_one_proj srcs t) as (_ & _ & _ & ->).
+  apply (accum_err (term_p t) (fun s => f_p _ (contrib s t)) 5).
+  eapply Forall_impl; [|exact HF]. intros s Hs; apply (term_rel s t Hs).
+Qed.
+
+Theorem remote_force_error_E : forall srcs t, Forall (fun s => apart s t) srcs ->
+  let r := remote_one R ar srcs t (rhs0 R ar) in
+  Rabs (f_x _ r - Rsum (map (fun s => f_x _ (contrib s t)) srcs))
+    <= E (length srcs + 16) * Rsum (map (fun s => Rabs (f_x _ (contrib s t))) srcs) /\
+  Rabs (f_y _ r - Rsum (map (fun s => f_y _ (contrib s t)) srcs))
+    <= E (length srcs + 16) * Rsum (map (fun s => Rabs (f_y _ (contrib s t))) srcs) /\
+  Rabs (f_z _ r - Rsum (map (fun s => f_z _ (contrib s t)) srcs))
+    <= E (length srcs + 16) * Rsum (map (fun s => Rabs (f_z _ (contrib s t))) srcs).
+Proof.
+  intros srcs t HF r. destruct (remote_one_proj srcs t) as (Ex & Ey & Ez & _).
+  fold r in Ex, Ey, Ez. rewrite Ex, Ey, Ez.
+  repeat split.
+  - apply (accum_err (term_x t) (fun s => f_x _ (contrib s t)) 15).
+    eapply Forall_impl; [|exact HF]. intros s Hs; apply (term_rel s t Hs).
+  - apply (accum_err (term_y t) (fun s => f_y _ (contrib s t)) 15).
+    eapply Forall_impl; [|exact HF]. intros s Hs; apply (term_rel s t Hs).
+  - apply (accum_err (term_z t) (fun s => f_z _ (contrib s t)) 15).
+    eapply Forall_impl; [|exact HF]. intros s Hs; apply (term_rel s t Hs).
+Qed.
+
+(* linear forms of the bound *)
+Lemma lin_from_E : forall K c X B, X <= E K * B -> 0 <= B -> E K <= c -> X <= c * B.
+Proof. intros K c X B H HB Hc. apply Rle_trans with (1 := H). apply Rmult_le_compat_r; assumption. Qed.
+
+Lemma INR_plus_c : forall n c, INR (n + c) = INR n + INR c.
+Proof. intros; apply plus_INR. Qed.
+
+Lemma INR6 : INR 6 = 6.  Proof. simpl; lra. Qed.
+Lemma INR16 : INR 16 = 16.  Proof. simpl; lra. Qed.
+
+Lemma E_lin_n : forall n c, (INR n + INR c) * (INR n + INR c + 1) * u <= 1 -> E (n + c) <= (INR n + INR c + 1) * u.
+Proof. intros n c H. pose proof (E_lin (n + c)) as HL. rewrite plus_INR in HL. apply HL, H. Qed.
+
+Lemma E_87_n : forall n c, (INR n + INR c) * u <= 1 / 8 -> E (n + c) <= 8 / 7 * ((INR n + INR c) * u).
+Proof. intros n c H. pose proof (E_87 (n + c)) as HL. rewrite plus_INR in HL. apply HL, H. Qed.
+
+Lemma abs_potential : forall srcs t, Forall (fun s => apart s t) srcs ->
+  map (fun s => Rabs (f_p _ (contrib s t))) srcs = map (fun s => Rabs (p_v _ s) / rdist s t) srcs.
+Proof.
+  intros srcs t HF. apply map_ext_in. intros s Hs. rewrite Forall_forall in HF.
+  pose proof (rdist_pos s t (HF s Hs)) as Hr. cbn [contrib f_p]. unfold Rdiv.
+  rewrite Rabs_mult, (Rabs_pos_eq (/ rdist s t)); [reflexivity|].
+  left; apply Rinv_0_lt_compat, Hr.
+Qed.
+
+(* MAIN B, potential: (n + 7) u when (n+6)(n+7) u <= 1 *)
+Theorem remote_potential_error : forall srcs t, Forall (fun s => apart s t) srcs ->
+  let n := INR (length srcs) in
+  (n + 6) * (n + 7) * u <= 1 ->
+  Rabs (f_p _ (remote_one R ar srcs t (rhs0 R ar)) - Rsum (map (fun s => p_v _ s / rdist s t) srcs))
+  <= ((n + 7) * u) * Rsum (map (fun s => Rabs (p_v _ s) / rdist s t) srcs).
+Proof.
+  intros srcs t HF n Hn. rewrite <- (abs_potential srcs t HF).
+  apply (lin_from_E (length srcs + 6)).
+  - exact (remote_potential_error_E srcs t HF).
+  - apply Rsum_abs_nonneg.
+  - pose proof (E_lin_n (length srcs) 6) as HL. rewrite INR6 in HL. fold n in HL.
+    replace (n + 7) with (n + 6 + 1) by ring. apply HL. replace (n + 6 + 1) with (n + 7) by ring. exact Hn.
+Qed.
+
+(* MAIN B, potential, under n u <= 1/16 : 8/7 (n + 6) u   (>= gamma_(n+6)) *)
+Theorem remote_potential_error_16 : forall srcs t, Forall (fun s => apart s t) srcs ->
+  let n := INR (length srcs) in
+  n * u <= 1 / 16 ->
+  Rabs (f_p _ (remote_one R ar srcs t (rhs0 R ar)) - Rsum (map (fun s => p_v _ s / rdist s t) srcs))
+  <= (8 / 7 * (n + 6) * u) * Rsum (map (fun s => Rabs (p_v _ s) / rdist s t) srcs).
+Proof.
+  intros srcs t HF n Hn. rewrite <- (abs_potential srcs t HF).
+  apply (lin_from_E (length srcs + 6)).
+  - exact (remote_potential_error_E srcs t HF).
+  - apply Rsum_abs_nonneg.
+  - pose proof (E_87_n (length srcs) 6) as HL. rewrite INR6 in HL. fold n in HL.
+    replace (8 / 7 * (n + 6) * u) with (8 / 7 * ((n + 6) * u)) by ring. apply HL. lra.
+Qed.
+
+(* MAIN B, force components: (n + 17) u when (n+16)(n+17) u <= 1 *)
+Theorem remote_force_error : forall srcs t, Forall (fun s => apart s t) srcs ->
+  let n := INR (length srcs) in
+  let r := remote_one R ar srcs t (rhs0 R ar) in
+  (n + 16) * (n + 17) * u <= 1 ->
+  Rabs (f_x _ r - Rsum (map (fun s => f_x _ (contrib s t)) srcs))
+    <= ((n + 17) * u) * Rsum (map (fun s => Rabs (f_x _ (contrib s t))) srcs) /\
+  Rabs (f_y _ r - Rsum (map (fun s => f_y _ (contrib s t)) srcs))
+    <= ((n + 17) * u) * Rsum (map (fun s => Rabs (f_y _ (contrib s t))) srcs) /\
+  Rabs (f_z _ r - Rsum (map (fun s => f_z _ (contrib s t)) srcs))
+    <= ((n + 17) * u) * Rsum (map (fun s => Rabs (f_z _ (contrib s t))) srcs).
+Proof.
+  intros srcs t HF n r Hn. destruct (remote_force_error_E srcs t HF) as (Hx & Hy & Hz). fold r in Hx, Hy, Hz.
+  assert (HE : E (length srcs + 16) <= (n + 17) * u).
+  { pose proof (E_lin_n (length srcs) 16) as HL. rewrite INR16 in HL. fold n in HL.
+    replace (n + 17) with (n + 16 + 1) by ring. apply HL. replace (n + 16 + 1) with (n + 17) by ring. exact Hn. }
+  repeat split; eapply lin_from_E; eauto using Rsum_abs_nonneg.
+Qed.
+
+Theorem remote_force_error_16 : forall srcs t, Forall (fun s => apart s t) srcs ->
+  let n := INR (length srcs) in
+  let r := remote_one R ar srcs t (rhs0 R ar) in
+  n * u <= 1 / 16 ->
+  Rabs (f_x _ r - Rsum (map (fun s => f_x _ (contrib s t)) srcs))
+    <= (8 / 7 * (n + 16) * u) * Rsum (map (fun s => Rabs (f_x _ (contrib s t))) srcs) /\
+  Rabs (f_y _ r - Rsum (map (fun s => f_y _ (contrib s t)) srcs))
+    <= (8 / 7 * (n + 16) * u) * Rsum (map (fun s => Rabs (f_y _ (contrib s t))) srcs) /\
+  Rabs (f_z _ r - Rsum (map (fun s => f_z _ (contrib s t)) srcs))
+    <= (8 / 7 * (n + 16) * u) * Rsum (map (fun s => Rabs (f_z _ (contrib s t))) srcs).
+Proof.
+  intros srcs t HF n r Hn. destruct (remote_force_error_E srcs t HF) as (Hx & Hy & Hz). fold r in Hx, Hy, Hz.
+  assert (HE : E (length srcs + 16) <= 8 / 7 * (n + 16) * u).
+  { pose proof (E_87_n (length srcs) 16) as HL. rewrite INR16 in HL. fold n in HL.
+    replace (8 / 7 * (n + 16) * u) with (8 / 7 * ((n + 16) * u)) by ring. apply HL. lra. }
+  repeat split; eapply lin_from_E; eauto using Rsum_abs_nonneg.
+Qed.
+
 End Calc.
 
 Print Assumptions pair_potential_error.
 Print Assumptions pair_force_error.
+
+(* the exact sums above are the components of the exact law of Num/P2PReal.v (remote_law) *)
+Lemma rsum_components : forall (t : partR) (srcs : list partR),
+  let r := rsum (map (fun s => contrib s t) srcs) in
+  f_x _ r = Rsum (map (fun s => f_x _ (contrib s t)) srcs) /\
+  f_y _ r = Rsum (map (fun s => f_y _ (contrib s t)) srcs) /\
+  f_z _ r = Rsum (map (fun s => f_z _ (contrib s t)) srcs) /\
+  f_p _ r = Rsum (map (fun s => p_v _ s / rdist s t) srcs).
+Proof.
+  intros t srcs; induction srcs as [|s l IH]; cbn [map].
+  - unfold rsum, Rsum; cbn; repeat split; reflexivity.
+  - cbv zeta in *. rewrite rsum_cons, !Rsum_cons. destruct IH as (Ix & Iy & Iz & Ip).
+    unfold radd; cbn [f_x f_y f_z f_p]. rewrite Ix, Iy, Iz, Ip. repeat split; reflexivity.
+Qed.
+
+Print Assumptions remote_potential_error_E.
+Print Assumptions remote_force_error_E.
+Print Assumptions remote_potential_error.
+Print Assumptions remote_potential_error_16.
+Print Assumptions remote_force_error.
+Print Assumptions remote_force_error_16.
+
+(* ---------------------------------------------------------------------------------------------------------------- *)
+(* Part 4: MAIN C, IEEE binary64 (Flocq): in the normal range every operation rounds with relative error <= 2^-53 *)
+From Coq Require Import ZArith.
+From Flocq Require Import Core Relative IEEE754.BinarySingleNaN.
+From Tbfmm Require Import Float.LocateProofs.
+
+Lemma rnd64_model : forall r : R,
+  bpow radix2 (-1022) <= Rabs r < bpow radix2 1023 ->
+  Rabs (rnd64 r) < bpow radix2 1024 /\
+  exists e, Rabs e <= bpow radix2 (-53) /\ rnd64 r = r * (1 + e).
+Proof.
+  intros r [Hlo Hhi]. split.
+  - apply Rle_lt_trans with (bpow radix2 1023); [|apply bpow_lt; lia].
+    apply abs_round_le_generic; auto with typeclass_instances.
+    + apply F64_bpow; lia.
+    + lra.
+  - destruct (relative_error_N_FLT_ex radix2 (-1074) 53 ltac:(lia) (fun x => negb (Z.even x)) r) as [e [He Hr]].
+    + exact Hlo.
+    + exists e; split; [|exact Hr].
+      replace (bpow radix2 (-53)) with (/ 2 * bpow radix2 (- (53) + 1)); [exact He|].
+      change (- (53) + 1)%Z with (-52)%Z.
+      change (bpow radix2 (-53)) with (bpow radix2 (-1 + -52)).
+      rewrite (bpow_plus radix2 (-1) (-52)). reflexivity.
+Qed.
+
+Notation b64 := (binary_float 53 1024).
+Notation u64 := (bpow radix2 (-53)).
+
+Theorem b64_add_model : forall x y : b64, is_finite x = true -> is_finite y = true ->
+  bpow radix2 (-1022) <= Rabs (B2R x + B2R y) < bpow radix2 1023 ->
+  is_finite (Bplus mode_NE x y) = true /\
+  exists e, Rabs e <= u64 /\ B2R (Bplus mode_NE x y) = (B2R x + B2R y) * (1 + e).
+Proof.
+  intros x y Fx Fy Hr. destruct (rnd64_model _ Hr) as [Hov [e [He Hrn]]].
+  generalize (Bplus_correct 53 1024 _ _ mode_NE x y Fx Fy).
+  change (round radix2 (SpecFloat.fexp 53 1024) (round_mode mode_NE)) with rnd64.
+  rewrite Rlt_bool_true by exact Hov. intros (H1 & H2 & _).
+  split; [exact H2|]. exists e; split; [exact He|]. rewrite H1; exact Hrn.
+Qed.
+
+Theorem b64_sub_model : forall x y : b64, is_finite x = true -> is_finite y = true ->
+  bpow radix2 (-1022) <= Rabs (B2R x - B2R y) < bpow radix2 1023 ->
+  is_finite (Bminus mode_NE x y) = true /\
+  exists e, Rabs e <= u64 /\ B2R (Bminus mode_NE x y) = (B2R x - B2R y) * (1 + e).
+Proof.
+  intros x y Fx Fy Hr. destruct (rnd64_model _ Hr) as [Hov [e [He Hrn]]].
+  generalize (Bminus_correct 53 1024 _ _ mode_NE x y Fx Fy).
+  change (round radix2 (SpecFloat.fexp 53 1024) (round_mode mode_NE)) with rnd64.
+  rewrite Rlt_bool_true by exact Hov. intros (H1 & H2 & _).
+  split; [exact H2|]. exists e; split; [exact He|]. rewrite H1; exact Hrn.
+Qed.
+
+Theorem b64_mul_model : forall x y : b64, is_finite x = true -> is_finite y = true ->
+  bpow radix2 (-1022) <= Rabs (B2R x * B2R y) < bpow radix2 1023 ->
+  is_finite (Bmult mode_NE x y) = true /\
+  exists e, Rabs e <= u64 /\ B2R (Bmult mode_NE x y) = (B2R x * B2R y) * (1 + e).
+Proof.
+  intros x y Fx Fy Hr. destruct (rnd64_model _ Hr) as [Hov [e [He Hrn]]].
+  generalize (Bmult_correct 53 1024 _ _ mode_NE x y).
+  change (round radix2 (SpecFloat.fexp 53 1024) (round_mode mode_NE)) with rnd64.
+  rewrite Rlt_bool_true by exact Hov. intros (H1 & H2 & _).
+  split; [rewrite H2, Fx, Fy; reflexivity|]. exists e; split; [exact He|]. rewrite H1; exact Hrn.
+Qed.
+
+Theorem b64_div_model : forall x y : b64, is_finite x = true -> B2R y <> 0 ->
+  bpow radix2 (-1022) <= Rabs (B2R x / B2R y) < bpow radix2 1023 ->
+  is_finite (Bdiv mode_NE x y) = true /\
+  exists e, Rabs e <= u64 /\ B2R (Bdiv mode_NE x y) = (B2R x / B2R y) * (1 + e).
+Proof.
+  intros x y Fx Hy Hr. destruct (rnd64_model _ Hr) as [Hov [e [He Hrn]]].
+  generalize (Bdiv_correct 53 1024 _ _ mode_NE x y Hy).
+  change (round radix2 (SpecFloat.fexp 53 1024) (round_mode mode_NE)) with rnd64.
+  rewrite Rlt_bool_true by exact Hov. intros (H1 & H2 & _).
+  split; [rewrite H2; exact Fx|]. exists e; split; [exact He|]. rewrite H1; exact Hrn.
+Qed.
+
+Theorem b64_sqrt_model : forall x : b64,
+  bpow radix2 (-1022) <= Rabs (sqrt (B2R x)) < bpow radix2 1023 ->
+  exists e, Rabs e <= u64 /\ B2R (Bsqrt mode_NE x) = sqrt (B2R x) * (1 + e).
+Proof.
+  intros x Hr. destruct (rnd64_model _ Hr) as [_ [e [He Hrn]]].
+  destruct (Bsqrt_correct 53 1024 _ _ mode_NE x) as (H1 & _).
+  change (round radix2 (SpecFloat.fexp 53 1024) (round_mode mode_NE)) with rnd64 in H1.
+  exists e; split; [exact He|]. rewrite H1; exact Hrn.
+Qed.
+
+Print Assumptions b64_add_model.
+Print Assumptions b64_sub_model.
+Print Assumptions b64_mul_model.
+Print Assumptions b64_div_model.
+Print Assumptions b64_sqrt_model.
